@@ -132,8 +132,30 @@ class C06(Spec):
                "thorough": {"wall": 1200, "max_runs": 10 ** 9, "chunk": 10}}
 
 
+class C16(Spec):
+    warm_runs = 12
+    rule = ("one run = one seeded history on 2-3 hydroelastic RigidBody objects from the six factories (general "
+            "rotations of all bodies): contact_forces / find_contact_surface calls that re-express body 1 in place, "
+            "duplicated calls, changing partners, update_pose before the first re-expression, Young's modulus changes; "
+            "every contact_forces result is compared with fresh twins built from the world-frame geometry in seeded "
+            "body frames (history independence), with the swapped call, with a commonly moved pair, and f12 = -f21; "
+            "non-trivial = a judged contact_forces call on a body that an earlier call has already re-expressed; "
+            "distinct = distinct history signatures")
+    assumptions = [
+        "the world-frame geometry kept by the executor (plain numpy: pose applied to the factory's vertices) defines "
+        "the physical scene; contact queries must not change it",
+        "tolerance 5% of the force magnitude plus a floor of 1e-7*E*L^3 for vanishing contacts; flags compared only for "
+        "forces above 100x that floor",
+        "update_pose after an in-place re-expression is not exercised (C16 does not define it)",
+        "a clean batch is evidence, not proof (seeded sampling of histories)",
+    ]
+    budgets = {"quick": {"wall": 75, "max_runs": 10 ** 9, "chunk": 10},
+               "thorough": {"wall": 1200, "max_runs": 10 ** 9, "chunk": 10}}
+
+
 _SPECS = {
     "C03": (C03, "K"),
+    "C16": (C16, "H"),
     "C06": (C06, "R"),
     "C05": (C05, "T"),
     "C14": (C14, "K"),
